@@ -1,0 +1,22 @@
+//go:build verif
+// +build verif
+
+package tars
+
+// Test-only export for the configuration verification (property C17).  Compiled only with the
+// "verif" build tag; nothing here is called by production code.
+
+import "github.com/TarsCloud/TarsGo/tars/transport"
+
+// VerifServerConfs returns a copy of the transport configuration which the default application
+// computed for every servant object while it read its server configuration (parseServerConfig).
+func VerifServerConfs() map[string]transport.TarsServerConf {
+	defaultApp.init()
+	out := make(map[string]transport.TarsServerConf, len(defaultApp.tarsConfig))
+	for obj, c := range defaultApp.tarsConfig {
+		if c != nil {
+			out[obj] = *c
+		}
+	}
+	return out
+}
